@@ -45,6 +45,8 @@ func c10Base() model.Frame {
 		{Name: "e", Kind: model.Enum, EnumVals: []string{"x", "y"}, Cells: []model.Cell{model.S("x"), N, model.S("y")}},
 		{Name: "e3", Kind: model.Enum, EnumVals: []string{"y", "x", "z"}, Cells: []model.Cell{model.S("x"), N, model.S("y")}},
 		{Name: "i2", Kind: model.Int, Cells: []model.Cell{model.I(3), model.I(2), model.I(1)}},
+		// the same value set as e, declared in the other order: a different enum type
+		{Name: "e4", Kind: model.Enum, EnumVals: []string{"y", "x"}, Cells: []model.Cell{model.S("x"), N, model.S("y")}},
 	}}
 }
 
@@ -61,7 +63,7 @@ func c10Variants() []qframe.QFrame {
 			q,
 			model.Build(base.Rows(nil)),
 			q.Sort(qframe.Order{Column: "i", Reverse: true}).Slice(0, 2),
-			q.Select("e3", "e", "s", "b", "f", "i2", "i"),
+			q.Select("e4", "e3", "e", "s", "b", "f", "i2", "i"),
 			q.GroupBy(groupby.Columns("i")).Aggregate(
 				qframe.Aggregation{Fn: "sum", Column: "f"}, qframe.Aggregation{Fn: "majority", Column: "b"},
 				qframe.Aggregation{Fn: first, Column: "s"}, qframe.Aggregation{Fn: "max", Column: "i2"}),
@@ -500,6 +502,25 @@ func miscZoo() []miscItem {
 		})},
 		{"Filter(enum col vs other enum type)", true, fr(func(q qframe.QFrame) qframe.QFrame {
 			return q.Filter(qframe.Filter{Column: "e", Comparator: "=", Arg: col("e3")})
+		})},
+		{"Filter(enum col vs enum with the same values in another order)", true, fr(func(q qframe.QFrame) qframe.QFrame {
+			return q.Filter(qframe.Filter{Column: "e", Comparator: "=", Arg: col("e4")})
+		})},
+		{"Filter(enum col < enum with the same values in another order)", true, fr(func(q qframe.QFrame) qframe.QFrame {
+			return q.Filter(qframe.Not(qframe.Filter{Column: "e4", Comparator: "<", Arg: col("e")}))
+		})},
+		{"Eval(function registered only in ANOTHER context, default ctx)", true, fr(func(q qframe.QFrame) qframe.QFrame {
+			other := eval.NewDefaultCtx()
+			_ = other.SetFunc("leak1", func(x int) int { return x })
+			_ = other.SetFunc("leak2", func(x, y int) int { return x })
+			_ = other.SetFunc("leak3", func(x float64) float64 { return x })
+			if r := q.Eval("n", qframe.Expr("leak2", col("i"), col("i2"))); r.Err == nil {
+				return r
+			}
+			if r := q.Eval("n", qframe.Expr("leak3", col("f")), eval.EvalContext(eval.NewDefaultCtx())); r.Err == nil {
+				return r
+			}
+			return q.Eval("n", qframe.Expr("leak1", col("i")))
 		})},
 		{"Filter(undeclared enum constant)", true, fr(func(q qframe.QFrame) qframe.QFrame {
 			return q.Filter(qframe.Filter{Column: "e", Comparator: "=", Arg: "nope"})
